@@ -29,3 +29,16 @@ Definition sock_copy_size : N := 108.
 Definition sock_len_bound : N := 108.
 (* the length test, translated from the text: `if (n >= sizeof (addr.sun_path))` exits *)
 Definition sock_len_refuses (n : N) : bool := (sock_len_bound <=? n).
+(* random.c, observed by tools/probes/start_seed_probe.c *)
+Definition seed_bytes : N := 1024.
+(* _random_read_seed returns on an empty / short seed file (sizes 0, 1, 512, seed_bytes-1), on a complete or longer one *)
+Definition seed_read_short_returns : bool := true.
+Definition seed_read_full_returns : bool := true.
+(* _random_write_seed: unlink calls before its open; flags and mode of the open; outcome *)
+Definition seed_write_unlinks_first : N := 1.
+Definition seed_open_creat : bool := true.
+Definition seed_open_trunc : bool := true.
+Definition seed_open_excl : bool := false.
+Definition seed_create_mode : N := 384.
+Definition seed_write_creates_missing : bool := true.
+Definition seed_write_renews_existing : bool := true.
